@@ -190,7 +190,64 @@ func oeBaseText(v string) string {
 	if s, ok := oeBaseTexts[v]; ok {
 		return s
 	}
+	if n, ok := oeSizeClass(v, 'L'); ok {
+		return oeLongText(n)
+	}
 	return v
+}
+
+// Size classes.  A base token "L<n>" stands for a fixed text of exactly n bytes and a detail
+// "D<k>" for a JSON object listing k digests, so that error bodies of every size class (below
+// net/http's 2048-byte write buffer, above it - chunked responses -, up to just below the
+// client's 8 KiB read limit) are exercised while the trace only carries the short names.
+func oeSizeClass(v string, letter byte) (int, bool) {
+	if len(v) < 2 || len(v) > 6 || v[0] != letter {
+		return 0, false
+	}
+	n, err := strconv.Atoi(v[1:])
+	if err != nil || n < 1 || strconv.Itoa(n) != v[1:] {
+		return 0, false
+	}
+	return n, true
+}
+
+func oeLongText(n int) string {
+	words := []string{"layer", "blob", "was", "not", "found", "in", "the", "repository", "while", "resolving", "manifest", "reference", "and", "digest"}
+	var sb strings.Builder
+	fmt.Fprintf(&sb, "text of %d bytes", n)
+	for i := 0; sb.Len() < n; i++ {
+		sb.WriteByte(' ')
+		sb.WriteString(words[(i*7+n)%len(words)])
+	}
+	s := sb.String()
+	if len(s) > n {
+		s = s[:n]
+	}
+	if strings.HasSuffix(s, " ") {
+		s = s[:n-1] + "."
+	}
+	return s
+}
+
+func oeDigestList(k int) string {
+	var sb strings.Builder
+	sb.WriteString(`{"missing":[`)
+	for i := 0; i < k; i++ {
+		if i > 0 {
+			sb.WriteByte(',')
+		}
+		fmt.Fprintf(&sb, "%q", digest.FromString(fmt.Sprintf("layer %d of %d", i, k)).String())
+	}
+	sb.WriteString(`]}`)
+	return sb.String()
+}
+
+// oeShort keeps unknown text in a trace line bounded: head, length and checksum.
+func oeShort(s string) string {
+	if len(s) <= 300 {
+		return s
+	}
+	return fmt.Sprintf("%s...[%d bytes, %s]", s[:200], len(s), digest.FromString(s).Encoded()[:16])
 }
 
 func oeTokText(t oeTok) string {
@@ -234,7 +291,7 @@ func (v *oeVocab) tokenise(s string) []oeTok {
 			} else if b, ok := v.base[p]; ok {
 				out = append(out, oeTok{"B", b})
 			} else {
-				out = append(out, oeTok{"U", p})
+				out = append(out, oeTok{"U", oeShort(p)})
 			}
 		}
 	}
@@ -248,6 +305,9 @@ func oeDetailBytes(d string) json.RawMessage {
 	if strings.HasPrefix(d, "j:") {
 		return json.RawMessage(d[2:])
 	}
+	if k, ok := oeSizeClass(d, 'D'); ok {
+		return json.RawMessage(oeDigestList(k))
+	}
 	return json.RawMessage(oeDetails[d])
 }
 
@@ -258,7 +318,7 @@ func (v *oeVocab) detailName(raw json.RawMessage) string {
 	}
 	var got any
 	if err := json.Unmarshal(raw, &got); err != nil {
-		return "U:" + string(raw)
+		return "U:" + oeShort(string(raw))
 	}
 	for _, d := range v.dets {
 		var want any
@@ -266,7 +326,7 @@ func (v *oeVocab) detailName(raw json.RawMessage) string {
 			return d
 		}
 	}
-	return "U:" + string(raw)
+	return "U:" + oeShort(string(raw))
 }
 
 // ---------------------------------------------------------------- building the real value
@@ -402,7 +462,7 @@ func (v *oeVocab) wire(t *oeTap) oeWire {
 		} `json:"errors"`
 	}
 	if !strings.HasPrefix(t.ctype, "application/json") || json.Unmarshal(t.body, &body) != nil {
-		w.Msg = []oeTok{{"U", string(t.body)}}
+		w.Msg = []oeTok{{"U", oeShort(string(t.body))}}
 		return w
 	}
 	w.JSON = true
@@ -829,7 +889,7 @@ func oeRandMsg(r *rand.Rand, lo int) []oeTok {
 		case x < 10:
 			out = append(out, oeTok{"E", ""})
 		case x < 11:
-			out = append(out, oeTok{"B", [...]string{"b1", "b2", "b3"}[r.Intn(3)]})
+			out = append(out, oeTok{"B", [...]string{"b1", "b2", "b3", "L1900", "L2100", "L3000", "L500"}[r.Intn(7)]})
 		default:
 			out = append(out, oeTok{"C", "UNKNOWN"})
 		}
@@ -867,6 +927,8 @@ func oeRandDetail(r *rand.Rand) string {
 		return "none"
 	case x < 4:
 		return "d" + strconv.Itoa(1+r.Intn(6))
+	case x < 5 && r.Intn(2) == 0:
+		return [...]string{"D1", "D25", "D30", "D60"}[r.Intn(4)]
 	}
 	var buf bytes.Buffer
 	enc := json.NewEncoder(&buf)
@@ -918,6 +980,24 @@ func oeRandTree(r *rand.Rand, depth int) oeNode {
 		n.Kids = append(n.Kids, oeRandTree(r, depth-1))
 	}
 	return n
+}
+
+// oeBodyBound: an upper bound of the JSON error body the tree can produce (whole message,
+// JSON-escaped at worst 6x for the few special characters, plus the largest detail).
+func oeBodyBound(n *oeNode) int {
+	msg, _ := json.Marshal(oeBuild(n).Error())
+	det := 0
+	var walk func(n *oeNode)
+	walk = func(n *oeNode) {
+		if d := len(oeDetailBytes(n.Detail)); d > det {
+			det = d
+		}
+		for i := range n.Kids {
+			walk(&n.Kids[i])
+		}
+	}
+	walk(n)
+	return len(msg) + det + 200
 }
 
 // ---------------------------------------------------------------- command
@@ -1020,6 +1100,10 @@ func oeCmd(args []string) error {
 			enc.Encode(ev{"op": "reset", "group": fmt.Sprintf("random-%d-%d", *seed, i / *group)})
 		}
 		c := &oeCase{ID: 1000000 + i, Carrier: oeCarriers[rnd.Intn(len(oeCarriers))], Hops: *hops, Err: oeRandTree(rnd, 1+rnd.Intn(*depth))}
+		for oeBodyBound(&c.Err) > 7000 {
+			// stay below the client's 8 KiB limit on error bodies (beyond it the code is documented to be lost)
+			c.Err = oeRandTree(rnd, 1+rnd.Intn(*depth))
+		}
 		if c.Carrier == "Repositories" || c.Carrier == "Tags" || c.Carrier == "Referrers" {
 			c.NItems = rnd.Intn(4)
 			c.Page = [...]int{0, 0, 1, 2, 3}[rnd.Intn(5)]
